@@ -11,7 +11,7 @@ MANIFEST = {
     'technique': 'cell-wise symbolic interpretation (D-lin) of the moisture adjustment: net change of retentate + permeate must be zero on every path; '
             'closure-by-complement and ordering rules for partition; linear-form check of the efficiency mixing; clamp-before-write; provenance of the phase rows '
             'copied by the wrappers; the C01 split-closure and C12 views-attached rules for the streams the helpers delegate to; polynomial identity on the '
-            'partition denominator',
+            'partition denominator; whole-write-before-complement rule',
     'text': 'Decides for every input: partition writes top = feed - bottom after every store into bottom; mix_and_split is mix_from followed by split_to on the '
             'mixed stream (C01); in adjust_moisture_content the change of the retentate plus the change of the permeate is symbolically zero on every path '
             'including the non-strict repair; the LLE efficiency mixing yields top+bottom = eta(top+bottom)+(1-eta)feed; the VLE/LLE wrappers copy the two phase '
@@ -19,7 +19,8 @@ MANIFEST = {
             'clamped into [0, feed] before they are stored; material_balance scales each variable inlet by its own factor; split_to closes for outlets on any '
             'package and the per-phase sub-streams phase_split iterates are dropped or re-attached when the flow container is re-bound. In partition and '
             'phase_fraction the bottom flows are x*(1-phi)*F with x = z/D and D-(1-phi) == phi*K as polynomials, which with the closure gives top_i/bottom_i = '
-            'K_i*phi/(1-phi) (the given coefficients up to the common factor). Reached moisture and solver accuracy are not decided.',
+            'K_i*phi/(1-phi) (the given coefficients up to the common factor). In partition the bottom outlet is written as a whole before top = feed - bottom on '
+            'every path. Reached moisture and solver accuracy are not decided.',
 }
 
 SEP = 'thermosteam/separations.py'
